@@ -20,7 +20,9 @@ var Threshold = 8 * time.Second
 // Call runs f; marker is a substring identifying library frames (e.g. "biogo/hts/bgzf").
 func Call(marker string, f func()) Result {
 	done := make(chan Result, 1)
+	gid := make(chan string, 1)
 	go func() {
+		gid <- curGoroutine()
 		defer func() {
 			if r := recover(); r != nil {
 				done <- Result{"panic", fmt.Sprint(r)}
@@ -34,13 +36,14 @@ func Call(marker string, f func()) Result {
 		return r
 	case <-time.After(Threshold):
 	}
-	// inspect: is some goroutine parked in the library?
+	// inspect: is the goroutine of this call parked in the library?
+	me := <-gid
 	for i := 0; i < 3; i++ {
 		buf := make([]byte, 1<<22)
 		buf = buf[:runtime.Stack(buf, true)]
 		blocked := ""
 		for _, g := range strings.Split(string(buf), "\n\n") {
-			if !strings.Contains(g, marker) || strings.Contains(g, "watch.Call(") && !strings.Contains(g, "watch.Call.func1") {
+			if !strings.HasPrefix(g, me+" ") || !strings.Contains(g, marker) {
 				continue
 			}
 			first := g
@@ -76,4 +79,15 @@ func Call(marker string, f func()) Result {
 	default:
 	}
 	return Result{"slow", "call exceeded threshold without a parked library goroutine"}
+}
+
+// curGoroutine returns "goroutine N" for the calling goroutine.
+func curGoroutine() string {
+	buf := make([]byte, 64)
+	buf = buf[:runtime.Stack(buf, false)]
+	f := strings.Fields(string(buf))
+	if len(f) >= 2 {
+		return f[0] + " " + f[1]
+	}
+	return "goroutine ?"
 }
